@@ -26,6 +26,8 @@ func checkC14(c *Ctx) {
 	c.checkRemovalOrder()
 	c.checkAttachSymmetry()
 	c.checkShutdownDone()
+	c.checkPauseBeforeStoreDelete()
+	c.checkEvictionDetachesAll()
 }
 
 // ---------------------------------------------------------------------------------------------
